@@ -391,15 +391,24 @@ def run(prog, rep):
                       "twice does not make it run - and report - twice")
     for mname in ("register_handler", "register_custom_handler"):
         m3 = vcls.lookup_method(mname)
-        adds = [c for c in calls_in(m3.node) if isinstance(c.func, ast.Attribute) and c.func.attr in ("add", "append", "extend", "insert")
-                and "_handlers" in unparse(c.func.value)]
+        adds = []
+        fresh = []       # containers created for a class that has none yet: setdefault(k, D) / reg[k] = D
+        for h3 in private_closure(m3):
+            for c in calls_in(h3.node):
+                if isinstance(c.func, ast.Attribute) and c.func.attr in ("add", "append", "extend", "insert") and \
+                        (isinstance(c.func.value, ast.Subscript) or (isinstance(c.func.value, ast.Call) and isinstance(c.func.value.func, ast.Attribute)
+                                                                      and c.func.value.func.attr in ("setdefault", "get"))):
+                    adds.append((h3, c))
+                if isinstance(c.func, ast.Attribute) and c.func.attr == "setdefault" and len(c.args) == 2:
+                    fresh.append(c.args[1])
+            for st3 in walk_no_nested(h3.node):
+                if isinstance(st3, ast.Assign) and any(isinstance(t, ast.Subscript) for t in st3.targets):
+                    fresh.append(st3.value)
         rep.floor("REG-3", len(adds), 1, "stores into _handlers in %s" % mname)
-        for c in adds:
-            base = c.func.value
-            dflt = base.args[1] if isinstance(base, ast.Call) and isinstance(base.func, ast.Attribute) and base.func.attr == "setdefault" and len(base.args) == 2 else None
-            good = c.func.attr == "add" and (dflt is None or unparse(dflt) == "set()")
+        for h3, c in adds:
+            good = c.func.attr == "add" and all(unparse(d0) in ("set()",) or isinstance(d0, ast.Set) for d0 in fresh)
             rep.check(good, "REG-3", "Validation.%s keeps a set per class" % mname, "set().add",
-                      "Validation.%s collects handlers with `%s`: a rule registered twice runs twice" % (mname, unparse(c)[:70]), where(m3, c),
+                      "Validation.%s collects handlers with `%s`: a rule registered twice runs twice" % (mname, unparse(c)[:70]), where(h3, c),
                       witness="register the same custom rule before every document: each issue is reported once more per registration")
     rep.assume("call resolution of odmlsa.kinds (class hierarchy + kinds); unresolved calls are listed in the evidence")
 
